@@ -11,4 +11,9 @@ import (
 // With the autoyield overlay the service package has a SimHook (added by the
 // overlay, not by the repository) and a yield before every statement of
 // signal.go and refreshworker.go.
-func init() { overlayHooks = func() { service.SimHook = kernel.HookSite } }
+func init() {
+	overlayHooks = func() {
+		service.SimHook = kernel.HookSite
+		service.SimSync = kernel.SimSync
+	}
+}
